@@ -3,6 +3,7 @@ import Pyxv.Proofs.ToJsonLemmas
 import Pyxv.Proofs.FromJsonLemmas
 import Pyxv.Proofs.QStable
 import Pyxv.Proofs.UniqueKeysDump
+import Pyxv.Proofs.OptionStable
 import Pyxv.Model.OpsToJson
 /-!
 # C16 — the JSON intermediate form is a faithful, reloadable representation: property theorems
@@ -311,5 +312,64 @@ example : ∃ e e', fromJson sectionsOnly 3 (.obj [(k!"type", .str k!"survey"), 
   obtain ⟨e, he⟩ := Option.isSome_iff_exists.mp hsome
   obtain ⟨e', h1, h2⟩ := dump_stable_tree_cfg sectionsOnly (by constructor <;> decide) sectionsOnly_qstable 3 _ e he
   exact ⟨e, e', he, h1, h2⟩
+
+
+/-!
+Part 4: options and the survey-level `choices` object (a model addition with its own theorems; the builder model
+`fromJson` used by the driver still answers `unsupported` for dicts that carry them).
+-/
+
+/-- the slot tuple of `Option` from the regenerated tables, without the tree key `parent` -/
+def genOptionSlots : List Str := (Gen.optionFields.filter fun n => n != "parent").map String.toList
+
+/-- the named parameters of `Option.__init__` (question.py): what `Option(**d)` reads into slots; every other
+    key of `d` becomes `extra_data`.  (The correspondence op receives this list from `inspect.signature` of the
+    source under test.) -/
+def optionCtor : List Str := [k!"name", k!"label", k!"media", k!"sms_option"]
+
+/-- facts about the regenerated Option slot tuple: distinct names; the constructor's parameters are slots in
+    slot order; every other slot (`extra_data`, `_choice_itext_ref`) is deleted by `Option.to_json_dict`. -/
+theorem genOptionSlots_ok :
+    genOptionSlots.Nodup ∧ genOptionSlots.filter (fun k => optionCtor.contains k) = optionCtor ∧
+    ∀ k ∈ genOptionSlots, optionCtor.contains k = false → k ∈ allDelete .option genOptionSlots [] [k!"parent"] := by
+  decide +kernel
+
+/-- dump, load, dump of one Option of the current source: any slot values, any extra choices columns with distinct
+    names that are not slot names. -/
+theorem option_dump_stable (f : Str → J) (extra : Dict) (hn : (extra.map Prod.fst).Nodup)
+    (hd : ∀ k ∈ extra.map Prod.fst, k ∉ genOptionSlots) :
+    optionDump (reloadOption optionCtor (optionDump (genOptionSlots.map (fun n => (n, f n)), extra))) =
+      optionDump (genOptionSlots.map (fun n => (n, f n)), extra) := by
+  have h := ToJson.option_dump_stable genOptionSlots genOptionSlots_ok.1 (fun k => optionCtor.contains k) f extra
+    genOptionSlots_ok.2.2 hn hd
+  rw [genOptionSlots_ok.2.1] at h
+  exact h
+
+example : optionDump (reloadOption optionCtor (optionDump (genOptionSlots.map (fun n => (n,
+      if n = k!"name" then J.str k!"a" else if n = k!"label" then J.str k!"A" else J.null)),
+      [(k!"parent", J.str k!"n"), (k!"pop", J.str k!"1"), (k!"empty", J.str [])]))) =
+    optionDump (genOptionSlots.map (fun n => (n,
+      if n = k!"name" then J.str k!"a" else if n = k!"label" then J.str k!"A" else J.null)),
+      [(k!"parent", J.str k!"n"), (k!"pop", J.str k!"1"), (k!"empty", J.str [])]) :=
+  option_dump_stable _ _ (by decide) (by decide +kernel)
+
+/-- dump, load, dump of a survey-level `choices` object (and of the option list carried by a select): every list,
+    every option, any extra columns — for the Option class of the current source. -/
+theorem choices_dump_stable (choices : List (Str × List Opt)) (hok : ∀ c ∈ choices, ∀ o ∈ c.2, OptOk genOptionSlots o) :
+    choicesJson (reloadChoices optionCtor choices) = choicesJson choices := by
+  have h := ToJson.choices_dump_stable genOptionSlots genOptionSlots_ok.1 (fun k => optionCtor.contains k)
+    genOptionSlots_ok.2.2 choices hok
+  rw [genOptionSlots_ok.2.1] at h
+  exact h
+
+example : choicesJson (reloadChoices optionCtor [(k!"l", [(genOptionSlots.map (fun n => (n,
+      if n = k!"name" then J.str k!"a" else J.null)), [(k!"parent", J.str k!"n")])])]) =
+    choicesJson [(k!"l", [(genOptionSlots.map (fun n => (n, if n = k!"name" then J.str k!"a" else J.null)),
+      [(k!"parent", J.str k!"n")])])] := by
+  apply choices_dump_stable
+  intro c hc o ho
+  simp only [List.mem_singleton] at hc; subst hc
+  simp only [List.mem_singleton] at ho; subst ho
+  exact ⟨fun n => if n = k!"name" then J.str k!"a" else J.null, rfl, by decide, by decide +kernel⟩
 
 end Pyxv.C16
